@@ -47,7 +47,8 @@ type LalConf struct {
 	HlsFragNum       int             `json:"hls_frag_num"`
 	HlsDelThresh     int             `json:"hls_del_thresh"`
 	HlsCleanup       int             `json:"hls_cleanup"`
-	HlsSubKey        string          `json:"hls_sub_key,omitempty"` // non-empty: HLS sub-session mode (302 to ?session_id=...)
+	HlsSubKey        string          `json:"hls_sub_key,omitempty"`        // non-empty: HLS sub-session mode (302 to ?session_id=...)
+	HlsSubTimeoutMs  int             `json:"hls_sub_timeout_ms,omitempty"` // expiry of idle HLS sub sessions (0: 30 s)
 	RtspEnable       bool            `json:"rtsp"`
 	RtspWaitKey      bool            `json:"rtsp_wait_key"`
 	RtspAuth         bool            `json:"rtsp_auth"`
@@ -86,7 +87,7 @@ func (c LalConf) JSON() []byte {
 			"gop_num": c.FlvGop, "single_gop_max_frame_num": c.FlvGopCap},
 		"hls": map[string]interface{}{"enable": c.HlsEnable, "enable_https": false, "url_pattern": "/hls/", "out_path": "/simhls/",
 			"fragment_duration_ms": c.HlsFragMs, "fragment_num": c.HlsFragNum, "delete_threshold": c.HlsDelThresh,
-			"cleanup_mode": c.HlsCleanup, "use_memory_as_disk_flag": false, "sub_session_timeout_ms": 30000, "sub_session_hash_key": c.HlsSubKey},
+			"cleanup_mode": c.HlsCleanup, "use_memory_as_disk_flag": false, "sub_session_timeout_ms": hlsSubTimeout(c), "sub_session_hash_key": c.HlsSubKey},
 		"httpts": map[string]interface{}{"enable": c.TsEnable, "enable_https": false, "url_pattern": "/live/",
 			"gop_num": c.TsGop, "single_gop_max_frame_num": c.TsGopCap},
 		"rtsp": map[string]interface{}{"enable": c.RtspEnable, "addr": fmt.Sprintf(":%d", PortRtsp), "rtsps_enable": false,
@@ -177,6 +178,13 @@ func (n *NotifyRecorder) OnRelayPullStart(info base.PullStartInfo) {
 }
 func (n *NotifyRecorder) OnRelayPullStop(info base.PullStopInfo) {
 	n.add(NotifyEvent{Kind: "pull_stop", SessionId: info.SessionId, Stream: info.StreamName, Protocol: info.Protocol, Remote: info.RemoteAddr, Url: info.Url, UrlParam: info.UrlParam, HasIn: info.HasInSession, HasOut: info.HasOutSession})
+}
+
+func hlsSubTimeout(c LalConf) int {
+	if c.HlsSubTimeoutMs > 0 {
+		return c.HlsSubTimeoutMs
+	}
+	return 30000
 }
 
 // ---- world -------------------------------------------------------------------------------------------------------------
